@@ -16,4 +16,5 @@ func runC05(c *core.Check) {
 	c.Assumes = []string{"pairs where either evaluation reports an error are outside the statement and skipped (counted)", "marks are stripped before comparison"}
 	streamTLC(c, core.TLCRun{Module: "MC_E1", Parts: 4, Consts: e1Consts(c), Timeout: minutes(25), KeepVars: []string{"e", "fv", "last"}},
 		func(st core.State) { c05.Handle(c, st) })
+	deepE1(c, true, func(st core.State) { c05.Handle(c, st) })
 }
